@@ -283,13 +283,24 @@ impl Object {
     }
 
     /// Frees the memory address this pointer points to
-    /// Plus all addresses inside the array (if it is an array)
+    /// Plus everything that can be reached from it (if it is an array)
+    /// Every object is freed exactly once, also if it is referred to more than once (or refers to itself)
     pub fn free_recursive(self) {
+        let mut freed = Vec::new();
+        self.free_reachable(&mut freed);
+    }
+
+    fn free_reachable(self, freed: &mut Vec<*mut u8>) {
+        if !self.is_heap_allocated() || freed.contains(&self.as_ptr()) {
+            return;
+        }
+        freed.push(self.as_ptr());
+
         if self.tag() == Type::Array {
             // Safety: We've asserted the type
             unsafe {
                 for o in self.as_vec_unchecked() {
-                    o.free();
+                    o.free_reachable(freed);
                 }
             }
         }
